@@ -703,7 +703,8 @@ def search(ctx):
 def replay(ctx, rp):
     case = rp['case']
     if 'levels' in case:
-        return True
+        from harness.check import NotReplayable
+        raise NotReplayable('a case of the level-arithmetic table')
     r = execute(case)
     for v in r['viol']:
         print('  monitor:', v)
